@@ -2617,7 +2617,9 @@ class AggregateBase(UnitsManaged, Saveable, OpenSystem):
             for i in range(start, dim):
                 ens[i-start] = numpy.real(HH[i,i] - subtract[i-start])
 
-            ne = numpy.exp(-ens/kBT)
+            # shift by the lowest energy: the populations do not change,
+            # but the exponentials cannot all underflow
+            ne = numpy.exp(-(ens-numpy.amin(ens))/kBT)
             sne = numpy.sum(ne)
             rho0_diag = ne/sne
             rho0[start:,start:] = numpy.diag(rho0_diag)
